@@ -87,3 +87,15 @@ package chronicler
 //@   loop 1 invariant[every_decoded_record_is_kept] treasures != nil && (rangeindex >= 0 ==> has(treasures, icall("GetKey", lastarg("Treasure.LoadFromByte", 0))) && treasures[icall("GetKey", lastarg("Treasure.LoadFromByte", 0))] == lastarg("Treasure.LoadFromByte", 0))
 //@   ensures[handed_over_at_most_once] calls("Beacon.PushManyFromMap") <= old(calls("Beacon.PushManyFromMap")) + 1
 //@   ensures[undecodable_record_aborts] calls("Treasure.LoadFromByte") > old(calls("Treasure.LoadFromByte")) && !isnil(lastret("Treasure.LoadFromByte")) ==> calls("Beacon.PushManyFromMap") == old(calls("Beacon.PushManyFromMap"))
+
+// ---------------------------------------------------------------------------------------
+// Constructors used by hydra.loadChronicler (properties C29, C16): the V2 chronicler built for a swamp
+// carries exactly the name it was given (the name it later stores in the file, C29) and the folder it was
+// given, and its storage file is that folder path + ".hyd". New (V1) is assumed to return an instance.
+//@ func NewV2WithName(folder, maxDepth, swampName) (c)
+//@   property C29 C16
+//@   ensures[carries_the_name_and_folder_it_was_given] holdsptr(c, "chroniclerV2") && asptr(c, "chroniclerV2").swampName == swampName && asptr(c, "chroniclerV2").swampDataFolderPath == folder && asptr(c, "chroniclerV2").maxDepth == maxDepth
+//@   ensures[self_heal_and_inline_compaction_enabled] asptr(c, "chroniclerV2").compactionOnSave
+//@ func New(folder, maxFileSize, maxDepth, fs, meta) (c)
+//@   opaque
+//@   ensures c != nil
